@@ -519,11 +519,35 @@ def check_C18(ctx):
     viols = sim_families(ctx, fams, C18_TAGS, n)
     if ctx.counters.get("compactions_ok", 0) == 0:
         raise Infra("vacuous: no compaction succeeded")
+    # the literal half: every value of the grammar Yson.tla (strings and keys that look like syntax included)
+    import subprocess
+    vals = generate(ctx, "yson_gen.cfg", module="Yson", workers=1)
+    if len(vals) < 100:
+        raise Infra("Yson.tla generated only %d values" % len(vals))
+    d = ctx.sub("yson")
+    inp = os.path.join(d, "values.ndjson")
+    with open(inp, "w") as f:
+        for b in vals:
+            f.write(json.dumps(b) + "\n")
+    tr = os.path.join(d, "trace.ndjson")
+    p = subprocess.run([ctx.yvh, "yson", "-in", inp, "-out", tr], capture_output=True, text=True)
+    if p.returncode != 0:
+        raise Infra("yson driver failed: " + p.stderr[-2000:])
+    lines = open(tr).read().splitlines()
+    seen = set()
+    for v in validate(ctx, [tr], module="YsonTrace", cfg="yson_trace.cfg"):
+        e = json.loads(lines[v["line"] - 1])
+        viols.append({"property": "C18", "tag": v["tag"], "family": "yson-literals", "behaviour": None, "value": e["inp"], "text": e["text"], "errors": [e["err"]],
+                      "seed": ctx.seed})
+    ctx.count("behaviours_executed", len(vals))
+    ctx.count("traces_validated", len(vals))
+    ctx.samples.append({"family": "yson-literals", "values": len(vals)})
     fresh, known = split_known(ctx, viols)
     return "translation_validation", fresh, known, dict(mc_cov(ctx), programs=ctx.counters.get("traces_validated", 0),
             disagreements_checked=ctx.counters.get("trace_events_validated", 0)), [
         "reachable-state half only: YSON round trip of every log prefix of the generated histories and packs.Compact's rebuild-compare; "
-        "YSON grammar fidelity on arbitrary literals and revisions are not decided here (DESIGN.md section 8)"]
+        "the literal half covers the grammar Yson.tla (476 root values: every primitive kind except double/bytes/date, strings and keys that look like syntax, "
+        "styled text, trees with attributes, counters, containers of depth 1), not arbitrary YSON; revision restore itself is not driven (DESIGN.md section 8)"]
 
 
 C14_TAGS = {"UndoExact", "RedoExact", "UndoRedoNeverFails", "CloneEqRoot", "SyncNeverFails", "Converged", "RefEquiv"}
